@@ -4,6 +4,7 @@ from __future__ import annotations
 import hashlib
 import json
 import os
+import re
 import sys
 import time
 from typing import Any, Dict, List, Optional
@@ -93,6 +94,17 @@ class Check:
         if count < minimum:
             raise AnalysisError(f"{self.prop}.{rule}: only {count} {what} located, floor is {minimum} "
                                 f"(anchor vanished or matcher broken)")
+
+    def expect(self, rule: str, what: str, count: int, minimum: int, where: Any, message: str = "", node: Any = None) -> bool:
+        """Like ``floor`` for constructs *inside an already located function*: their absence is not a broken matcher
+        but the removal of the behaviour the rule is about, so it is reported as a violation of the rule."""
+        if count >= minimum:
+            return True
+        slug = re.sub(r"[^a-z0-9]+", "-", what.lower()).strip("-")[:60]
+        self.ob(rule, False, where, f"missing:{slug}",
+                message or f"{what}: {count} found where the rule expects at least {minimum}: the construct this clause of the property rests on "
+                           f"has been removed from the function", node if node is not None else getattr(where, "node", None))
+        return False
 
     def need(self, cond: Any, role: str) -> Any:
         if not cond:
